@@ -15,6 +15,9 @@ package main
 // Only paths whose every undecided branch is an oracle answer are judged.
 
 import (
+	"runtime"
+	"sync"
+	"os"
 	"fmt"
 	"sort"
 	"strings"
@@ -40,6 +43,11 @@ type composeSpec struct {
 	// steps: further calls made on every finished state of the previous call
 	// (the step reads the previous result from the state)
 	steps []composeStep
+	// generalPosition: equality between two different free inputs is taken to be false
+	generalPosition bool
+	// skipTruncated: paths cut by the exploration bounds (unbounded descent for
+	// ever closer points) are left out and counted instead of failing the case
+	skipTruncated bool
 	// precise: byte-precise library models (interp_precise.go)
 	precise bool
 	// intervals: float intervals are propagated through arithmetic (interp_intervals.go)
@@ -149,143 +157,200 @@ func onlyOracleTrail(st *State, factsToo bool) bool {
 	return true
 }
 
+type composeResult struct {
+	verdict Verdict
+	pos     string
+	detail  string
+	witness []string
+}
+
+var interpCreate sync.Mutex
+
 func ruleCompose(mk func(thorough bool) []composeSpec, floor int) ruleFunc {
 	return func(c *Ctx) {
 		p := c.P
 		specs := mk(c.Thorough())
 		c.R.Rule("A-comp: the composing function is run by the abstract interpreter on every small shape with its callees uninterpreted (each call forks per possible answer and is logged with the identities of its arguments); on every finished path the result must equal the stated combination of the logged answers, and the logged answers must determine it")
 		lim := Limits{MaxStates: 20000, MaxSteps: 60000, MaxVisits: 64, MaxDepth: 40}
-		itPlain := NewInterp(p, lim)
-		itPlain.KeepFinished = true
-		var itPrecise *Interp
-		n := 0
-		for _, sp := range specs {
-			it := itPlain
-			if sp.precise {
-				if itPrecise == nil {
-					itPrecise = NewInterpPrecise(p, lim)
-					itPrecise.KeepFinished = true
-				}
-				it = itPrecise
-			}
-			fn := p.funcByShortKey(sp.entry)
-			if fn == nil {
+		type job struct {
+			si, ci int
+			cons   string
+			res    composeResult
+			done   bool
+		}
+		var jobs []*job
+		filter := os.Getenv("ORBCHECK_CASE")
+		for si, sp := range specs {
+			if p.funcByShortKey(sp.entry) == nil {
 				c.R.Unknown("A-comp", sp.entry, "", "composing function not found")
 				continue
 			}
-			it.Oracles = map[*ssa.Function]oracleFunc{}
-			it.Terms = sp.terms
-			it.Intervals = sp.intervals
-			it.Precise = sp.precise
-			it.NonNeg, it.Positive = nil, nil
 			missing := ""
-			var okeys []string
 			for k := range sp.oracles {
-				okeys = append(okeys, k)
-			}
-			sort.Strings(okeys)
-			for _, k := range okeys {
-				of := p.funcByShortKey(k)
-				if of == nil {
+				if p.funcByShortKey(k) == nil {
 					missing = k
-					break
 				}
-				it.Oracles[of] = sp.oracles[k](of)
 			}
 			if missing != "" {
-				c.R.Unknown("A-comp", sp.entry, p.Pos(fn.Pos()), "callee "+missing+" not found")
+				c.R.Unknown("A-comp", sp.entry, "", "callee "+missing+" not found")
 				continue
 			}
-			for _, cs := range sp.cases {
-				n++
+			for ci, cs := range sp.cases {
+				if filter != "" && !strings.Contains(cs.label, filter) {
+					continue
+				}
 				cons := fmt.Sprintf("%s(%s)", sp.entry, cs.label)
 				if sp.tag != "" {
 					cons = fmt.Sprintf("%s[%s](%s)", sp.entry, sp.tag, cs.label)
 				}
-				func() {
-					defer func() {
-						if x := recover(); x != nil {
-							c.R.Add("A-comp", cons, Undecided, "", fmt.Sprintf("interpreter panic: %v", x))
-						}
-					}()
-					it.Faults, it.Finished = nil, nil
-					it.Paths, it.Truncated, it.Steps, it.NFinished = 0, 0, 0, 0
-					it.TruncWhy = map[string]int{}
-					it.Unsupported = map[string]int{}
-					s := &State{heap: make(map[int]AV, len(it.baseHeap)+16)}
-					for k, v := range it.baseHeap {
-						s.heap[k] = v
-					}
-					args, ctx := cs.build(it, s)
-					it.pushFrame(s, fn, args, nil, nil)
-					it.Run(s)
-					for _, step := range sp.steps {
-						cur := it.Finished
-						var next []*State
-						for _, st := range cur {
-							name, sargs, ok := step(it, st, ctx)
-							if !ok {
-								next = append(next, st) // the path ends here (nothing to feed on)
-								continue
-							}
-							sf := p.funcByShortKey(name)
-							if sf == nil {
-								c.R.Unknown("A-comp", cons, "", "step function "+name+" not found")
-								return
-							}
-							st.done, st.result = false, nil
-							it.Finished = nil
-							it.pushFrame(st, sf, sargs, nil, nil)
-							it.Run(st)
-							next = append(next, it.Finished...)
-						}
-						it.Finished = next
-					}
-					pos := p.Pos(fn.Pos())
-					if it.Truncated > 0 {
-						c.R.Unknown("A-comp", cons, pos, fmt.Sprintf("exploration truncated (%v); the composition is not decided", it.TruncWhy))
-						return
-					}
-					for _, f := range it.Faults {
-						if f.Free {
-							c.R.Bad("A-comp", cons, p.InstrPos(f.In), fmt.Sprintf("%s fault while composing: %s", f.Kind, f.Detail))
-							return
-						}
-					}
-					judged, skipped, infeasible := 0, 0, 0
-					for _, st := range it.Finished {
-						if !sp.anyPath && !onlyOracleTrail(st, sp.terms) {
-							skipped++
-							continue
-						}
-						if sp.terms && pathOrder(it, st, nil).infeasible() {
-							infeasible++ // the comparisons assumed on this path contradict each other
-							continue
-						}
-						judged++
-						if why := sp.judge(it, ctx, st); why != "" {
-							var hist []string
-							for _, ev := range st.events {
-								var outs []string
-								for _, o := range ev.Out {
-									outs = append(outs, avString(o))
-								}
-								hist = append(hist, fmt.Sprintf("%s@%s=%s", ev.Fn.Name(), ev.Pos, strings.Join(outs, ",")))
-							}
-							c.R.Bad("A-comp", cons, pos, why+"; expected: "+sp.desc, "answers on this path: "+strings.Join(hist, " "))
-							return
-						}
-					}
-					if judged == 0 {
-						c.R.Unknown("A-comp", cons, pos, fmt.Sprintf("no finished path depends on the callees' answers alone (%d paths branch on other unknowns)", skipped))
-						return
-					}
-					c.R.OK("A-comp", cons, pos, fmt.Sprintf("%s: %d paths judged, %d infeasible, %d not judged (branch on other unknowns)", sp.desc, judged, infeasible, skipped))
-				}()
+				jobs = append(jobs, &job{si: si, ci: ci, cons: cons})
 			}
 		}
-		c.R.Floor("A-comp", n, floor)
+		ch := make(chan *job, len(jobs))
+		for _, j := range jobs {
+			ch <- j
+		}
+		close(ch)
+		nw := runtime.NumCPU()
+		if nw > 8 {
+			nw = 8
+		}
+		if nw > len(jobs) {
+			nw = len(jobs)
+		}
+		var wg sync.WaitGroup
+		for w := 0; w < nw; w++ {
+			wg.Add(1)
+			go func() {
+				defer wg.Done()
+				var itPlain, itPrecise *Interp
+				for j := range ch {
+					sp := specs[j.si]
+					var it *Interp
+					interpCreate.Lock()
+					if sp.precise {
+						if itPrecise == nil {
+							itPrecise = NewInterpPrecise(p, lim)
+							itPrecise.KeepFinished = true
+						}
+						it = itPrecise
+					} else {
+						if itPlain == nil {
+							itPlain = NewInterp(p, lim)
+							itPlain.KeepFinished = true
+						}
+						it = itPlain
+					}
+					interpCreate.Unlock()
+					j.res = runComposeCase(p, it, &sp, sp.cases[j.ci])
+					j.done = true
+				}
+			}()
+		}
+		wg.Wait()
+		for _, j := range jobs {
+			c.R.Add("A-comp", j.cons, j.res.verdict, j.res.pos, j.res.detail, j.res.witness...)
+		}
+		c.R.Floor("A-comp", len(jobs), floor)
 	}
+}
+
+// runComposeCase runs one case of a spec on the given interpreter and judges every finished path.
+func runComposeCase(p *Program, it *Interp, sp *composeSpec, cs composeCase) (res composeResult) {
+	defer func() {
+		if x := recover(); x != nil {
+			res = composeResult{verdict: Undecided, detail: fmt.Sprintf("interpreter panic: %v", x)}
+		}
+	}()
+	fn := p.funcByShortKey(sp.entry)
+	it.Oracles = map[*ssa.Function]oracleFunc{}
+	it.Terms = sp.terms
+	it.Intervals = sp.intervals
+	it.Precise = sp.precise
+	it.GeneralPosition = sp.generalPosition
+	it.NonNeg, it.Positive = nil, nil
+	var okeys []string
+	for k := range sp.oracles {
+		okeys = append(okeys, k)
+	}
+	sort.Strings(okeys)
+	for _, k := range okeys {
+		of := p.funcByShortKey(k)
+		it.Oracles[of] = sp.oracles[k](of)
+	}
+	it.Faults, it.Finished = nil, nil
+	it.Paths, it.Truncated, it.Steps, it.NFinished = 0, 0, 0, 0
+	it.TruncWhy = map[string]int{}
+	it.Unsupported = map[string]int{}
+	s := &State{heap: make(map[int]AV, len(it.baseHeap)+16)}
+	for k, v := range it.baseHeap {
+		s.heap[k] = v
+	}
+	args, ctx := cs.build(it, s)
+	it.pushFrame(s, fn, args, nil, nil)
+	it.Run(s)
+	for _, step := range sp.steps {
+		cur := it.Finished
+		var next []*State
+		for _, st := range cur {
+			name, sargs, ok := step(it, st, ctx)
+			if !ok {
+				next = append(next, st) // the path ends here (nothing to feed on)
+				continue
+			}
+			sf := p.funcByShortKey(name)
+			if sf == nil {
+				return composeResult{verdict: Undecided, detail: "step function " + name + " not found"}
+			}
+			st.done, st.result = false, nil
+			it.Finished = nil
+			it.pushFrame(st, sf, sargs, nil, nil)
+			it.Run(st)
+			next = append(next, it.Finished...)
+		}
+		it.Finished = next
+	}
+	pos := p.Pos(fn.Pos())
+	if it.Truncated > 0 && !sp.skipTruncated {
+		return composeResult{verdict: Undecided, pos: pos, detail: fmt.Sprintf("exploration truncated (%v); the composition is not decided", it.TruncWhy)}
+	}
+	truncated := it.Truncated
+	for _, f := range it.Faults {
+		if f.Free {
+			return composeResult{verdict: Violated, pos: p.InstrPos(f.In), detail: fmt.Sprintf("%s fault while composing: %s", f.Kind, f.Detail)}
+		}
+	}
+	judged, skipped, infeasible := 0, 0, 0
+	for _, st := range it.Finished {
+		if !sp.anyPath && !onlyOracleTrail(st, sp.terms) {
+			skipped++
+			continue
+		}
+		if sp.terms && pathOrder(it, st, nil).infeasible() {
+			infeasible++ // the comparisons assumed on this path contradict each other
+			continue
+		}
+		judged++
+		if why := sp.judge(it, ctx, st); why != "" {
+			var hist []string
+			for _, ev := range st.events {
+				var outs []string
+				for _, o := range ev.Out {
+					outs = append(outs, avString(o))
+				}
+				hist = append(hist, fmt.Sprintf("%s@%s=%s", ev.Fn.Name(), ev.Pos, strings.Join(outs, ",")))
+			}
+			return composeResult{verdict: Violated, pos: pos, detail: why + "; expected: " + sp.desc, witness: []string{"answers on this path: " + strings.Join(hist, " ")}}
+		}
+	}
+	if judged == 0 {
+		return composeResult{verdict: Undecided, pos: pos, detail: fmt.Sprintf("no finished path depends on the callees' answers alone (%d paths branch on other unknowns)", skipped)}
+	}
+	extra := ""
+	if truncated > 0 {
+		extra = fmt.Sprintf(", %d cut by the exploration bounds", truncated)
+	}
+	return composeResult{verdict: Discharged, pos: pos, detail: fmt.Sprintf("%s: %d paths judged, %d infeasible, %d not judged (branch on other unknowns)%s", sp.desc, judged, infeasible, skipped, extra)}
 }
 
 // ---------------------------------------------------------------------------
